@@ -1,6 +1,6 @@
 """C08 — concurrency never exceeds thread or group limits; dispatch follows priority."""
 import vlib
-from props import common, sched
+from props import common, mix, sched
 
 THM = "NextestModel.Thm.C08"
 GEN = []
@@ -10,7 +10,7 @@ ASSUMPTIONS = ["weights are threads-required computed against the effective test
 KINDS = ("global-weight", "group-weight", "weight-accounting")
 
 
-def run(seed, tier, replay=None):
+def run_p(seed, tier, replay=None):
     r, items, model = sched.run_sched(seed, tier)
     violations = []
     nt = set()
@@ -52,5 +52,9 @@ def run(seed, tier, replay=None):
         "samples": samples, "traces": len(items), "dist": r.dist,
         "violations": violations, "broken": r.broken, "impl_failures": r.impl_failures,
     }
+
+
+def run(seed, tier, replay=None):
+    return mix.merge(run_p(seed, tier, replay), mix.check([mix.mon_concurrency], seed, tier))
 
 KNOWN_MATCHERS = {}
